@@ -52,5 +52,10 @@ def gen(tier, rng):
     yield nodegen.switch_timeout_script(r, "node-switch-timeout")
     yield nodegen.restart_script(r, "node-restart", 2)
     yield nodegen.c15_timeout_script(r, "node-silence", [60, 90, 300], 20, 200)
+    # removal by a close message; announcements with arbitrary content from an established peer (claims grow / shrink / permute / repeat)
+    yield nodegen.close_script(r, "node-close-router")
+    yield nodegen.close_script(r, "node-close-switch", mode="switch", dev="tap")
+    for i in range(6 if thorough else 2):
+        yield nodegen.announce_script(r, "node-announce-%d" % i, 120 if thorough else 50)
 
 obs_class, nontrivial_key = _nodecommon.with_node(obs_class, nontrivial_key)
